@@ -2,11 +2,12 @@ CONSTANTS
   NameSeq <- N3
   Slots = {1, 2}
   MaxNodes = 8
-  MaxDepth = 3
+  MaxDepth = 2
   Actions <- RelActions
   InitDeclared = 3
-INIT Init
-NEXT Next
+CONSTANT BuildFuns <- RelFuns
+INIT Init2
+NEXT NextB
 CONSTRAINT Bound
 INVARIANT InvCanonical
 INVARIANT InvRefExact
